@@ -1,4 +1,8 @@
-"""C01 — chunked reading loses, duplicates or reorders no entry, for any chunk size  (iosim)"""
+"""C01 — chunked reading loses, duplicates or reorders no entry, for any chunk size  (iosim)
+
+generate(ctx) -> scenario (JSON-able, every decision of the run, drawn from the tape)
+execute(ctx, scenario)   (tape-free: replay files re-execute the stored scenario literally)
+"""
 from .. import core, simfs
 from ..core import Violation, Inconclusive, raised
 from ..engines import iosim
@@ -27,31 +31,57 @@ def _weighted_first_value(pairs, item):
     raise KeyError(item)
 
 
-def make_file(ctx, tag, max_records):
+# ---------------------------------------------------------------------------------------------
+# file scenarios (shared with C02 / C15 / C04 ...)
+
+def gen_file(ctx, tag, max_records, format_weights=None, allow_mixed_optint=False, noncanon=True,
+             allow_gzip=True, lazy_choices=(None, True, False)):
+    """draws a file description; JSON-able"""
     tape = ctx.tape
-    fmt = T.FORMATS[tape.weighted(FORMAT_WEIGHTS, tag + "fmt")]
+    fmt = T.FORMATS[tape.weighted(format_weights or FORMAT_WEIGHTS, tag + "fmt")]
     style = T.gen_style(tape, fmt)
-    if fmt.name == "sam" and ctx.excl:
-        style["crlf"] = False   # KF-C02-sam-crlf: SAM with CRLF cannot be read at all (reference raises)
-    records = T.gen_records(tape, fmt, max_records, noncanon=True)
+    style["allow_mixed_optint"] = bool(allow_mixed_optint)
+    records = T.gen_records(tape, fmt, max_records, noncanon=noncanon, style=style)
     data, lay = T.serialize(fmt, records, style)
-    stored, ext, sdesc = iosim.draw_storage(tape, data)
-    path = f"/sim/{tag}f{fmt.suffix}{ext}"
-    lazy = tape.choice([None, True, False], tag + "lazy")
+    gz = bool(allow_gzip and tape.boolean(tag + "gzip", 1, 3))
+    cuts = []
+    if gz:
+        ncuts = tape.weighted([(3, 0), (2, 1), (1, 2)], tag + "gz.ncuts")
+        cuts = sorted(set(tape.draw(max(len(data), 1), tag + "gz.cut") for _ in range(ncuts)))
+    lazy = tape.choice(list(lazy_choices), tag + "lazy")
     route = tape.weighted([(3, "path"), (1, "handle")], tag + "route")
-    spec = iosim.ReaderSpec(fmt, path, sdesc["gzip"], lazy, route)
-    return {"fmt": fmt, "style": style, "records": records, "data": data, "lay": lay, "stored": stored,
-            "spec": spec, "sdesc": sdesc}
+    return {"format": fmt.name, "style": style, "n_records": len(records), "size": len(data),
+            "data": core.esc(data), "gzip": gz, "gz_cuts": cuts, "lazy": lazy, "route": route,
+            "path": f"/sim/{tag}f{fmt.suffix}{'.gz' if gz else ''}",
+            "header_len": lay["header_len"],
+            "spans": [[r["start"], r["end"], r["first_line"], r["n_lines"]] for r in lay["records"]],
+            "records": records}
 
 
-def largest_entry(lay):
-    return max((r["end"] - r["start"] for r in lay["records"]), default=0) + 2
+class File:
+    """materialised file scenario"""
 
+    def __init__(self, d):
+        self.d = d
+        self.fmt = T.FORMATS[d["format"]]
+        self.style = d["style"]
+        self.data = core.unesc(d["data"])
+        self.records = d["records"]
+        self.gzip = d["gzip"]
+        if self.gzip:
+            self.stored, self.members = iosim.gzip_members(self.data, d["gz_cuts"])
+        else:
+            self.stored, self.members = self.data, 0
+        self.spec = iosim.ReaderSpec(self.fmt, d["path"], self.gzip, d["lazy"], d["route"])
+        self.header_len = d["header_len"]
+        self.spans = d["spans"]
+        self.body = self.data[self.header_len:]
+        self.size = len(self.data)
+        self.big = max((s[1] - s[0] for s in self.spans), default=0) + 2   # largest entry in bytes (+ terminator slack)
 
-def describe(f):
-    return {"format": f["fmt"].name, "style": f["style"], "storage": f["sdesc"], "lazy": f["spec"].lazy,
-            "route": f["spec"].route, "path": f["spec"].path, "n_records": len(f["records"]),
-            "size": len(f["data"]), "data": core.esc(f["data"])}
+    def brief(self):
+        d = self.d
+        return {k: d[k] for k in ("format", "style", "n_records", "size", "data", "gzip", "gz_cuts", "lazy", "route", "path")}
 
 
 def relation(k, size, big):
@@ -62,30 +92,30 @@ def relation(k, size, big):
 
 def check_read(ctx, f, cr, k_eff, ref_rows, sched, fault=None):
     """judge one finished ChunkedRead against the reference"""
-    size = len(f["data"])
-    big = largest_entry(f["lay"])
     ctx.evals += 1
     nch = len(cr.chunk_sizes)
-    r1, div = relation(k_eff, size, big)
-    ctx.state(f["fmt"].name, f["style"]["crlf"], f["style"]["final_newline"], f["sdesc"]["gzip"], f["spec"].lazy,
-              f["spec"].route, sched, r1, div, min(nch, 4), fault)
+    r1, div = relation(k_eff, f.size, f.big)
+    ctx.state(f.fmt.name, f.style["crlf"], f.style["final_newline"], f.gzip, f.spec.lazy,
+              f.spec.route, sched, r1, div, min(nch, 4), fault)
     if nch >= 2:
         ctx.probe("multi_chunk")
     if any(n == 1 for n in cr.chunk_sizes):
         ctx.probe("chunk_with_one_entry")
-    if size % k_eff == 0:
+    if f.size % k_eff == 0:
         ctx.probe("size_multiple_of_k")
-    if not f["style"]["final_newline"]:
+    if not f.style["final_newline"]:
         ctx.probe("tail_without_newline")
-    if f["style"]["crlf"]:
+    if f.style["crlf"]:
         ctx.probe("crlf")
-    detail = {"file": describe(f), "schedule": sched, "k": k_eff, "chunks": cr.chunk_sizes[:20]}
+    if f.gzip and f.members > 1:
+        ctx.probe("gzip_multi_member")
+    detail = {"file": f.brief(), "schedule": sched, "k": k_eff, "chunks": cr.chunk_sizes[:20]}
     if cr.error is not None:
         if fault == "eio":
             return  # the injected error surfaced (or something else raised): allowed under eio
         if cr.error.type == "NoProgress":
             raise Violation("progress", "no_end_of_stream", detail)
-        if k_eff < 2 * big + 2:
+        if k_eff < 2 * f.big + 2:
             ctx.probe("raise_small_k_accepted")
             return
         detail["error"] = repr(cr.error)
@@ -97,105 +127,112 @@ def check_read(ctx, f, cr, k_eff, ref_rows, sched, fault=None):
         raise Violation("chunked_eq_whole", kind, detail)
 
 
-def run(ctx):
+def check_conservation(f, k):
+    if k < f.big:
+        return
+    msg = iosim.raw_conservation(f.spec, k, f.body)
+    if raised(msg):
+        if k >= 2 * f.big + 2:
+            raise Violation("byte_conservation", "raises", {"file": f.brief(), "k": k, "error": repr(msg)})
+    elif msg is not None:
+        msg.update({"file": f.brief(), "k": k})
+        raise Violation("byte_conservation", "bytes", msg)
+
+
+# ---------------------------------------------------------------------------------------------
+
+def generate(ctx):
     tape = ctx.tape
-    thorough = ctx.tier == "thorough"
-    max_records = 12 if thorough else 6
-    f = make_file(ctx, "", max_records)
-    size = len(f["data"])
+    max_records = 12 if ctx.tier == "thorough" else 6
+    fd = gen_file(ctx, "", max_records)
+    size = fd["size"]
     sched = tape.weighted(SCHEDS, "sched")
-    k_drawn = 1 + tape.draw(size + 2, "k")
+    k = 1 + tape.draw(size + 2, "k")
     nvar = 1 + tape.draw(4, "nvar")
     ks_var = [1 + tape.draw(size + 2, "kvar") for _ in range(nvar)]
-    interleave = tape.boolean("interleave", 1, 5)
-    eio = tape.boolean("eio", 1, 8)
-    ctx.scenario = {"file": describe(f), "schedule": sched, "k": k_drawn, "ks_varying": ks_var,
-                    "interleave": interleave, "eio": eio}
-    fs = simfs.SimFS(event_budget=200000 if sched == "sweep" else 20000)
-    fs.put(f["spec"].path, f["stored"])
-    body = f["data"][f["lay"]["header_len"]:]
-    g = None
-    if interleave and sched != "sweep":
-        g = make_file(ctx, "b.", max_records)
-        fs.put(g["spec"].path, g["stored"])
-        ctx.scenario["file_b"] = describe(g)
-    big = largest_entry(f["lay"])
+    stream_api = tape.boolean("stream_api")
+    sc = {"file": fd, "schedule": sched, "k": k, "ks_varying": ks_var, "stream_api": stream_api,
+          "file_b": None, "k_b": None, "eio_nth": 0, "interleaving": []}
+    if sched != "sweep":
+        if tape.boolean("interleave", 1, 5):
+            sc["file_b"] = gen_file(ctx, "b.", max_records)
+            sc["k_b"] = 1 + tape.draw(sc["file_b"]["size"] + 2, "b.k")
+            sc["interleaving"] = [tape.draw(2, "sched.actor") for _ in range(48)]
+        if tape.boolean("eio", 1, 6):
+            sc["eio_nth"] = 1 + tape.draw(5, "eio.nth")
+    return sc
 
+
+def execute(ctx, sc):
+    f = File(sc["file"])
+    sched = sc["schedule"]
+    fs = simfs.SimFS(event_budget=300000 if sched == "sweep" else 20000)
+    fs.put(f.spec.path, f.stored)
+    g = File(sc["file_b"]) if sc.get("file_b") else None
+    if g is not None:
+        fs.put(g.spec.path, g.stored)
     with simfs.Mount(fs), core.quiet():
-        ref = iosim.read_whole(f["spec"])
+        ref = iosim.read_whole(f.spec)
         if raised(ref):
             raise Inconclusive("reference read() raises: " + ref.type)
         if sched == "sweep":
-            # deterministic inner loop: every k from 1 to size + 2
-            for k in range(1, size + 3):
-                with core.chunk_knob(None):
-                    cr = iosim.ChunkedRead(f["spec"], k, stream_api=(k % 2 == 0)).run_to_end()
+            # deterministic inner loop: every k from 1 to size + 2; a failure is re-expressed as schedule=fixed,k
+            for k in range(1, f.size + 3):
+                cr = iosim.ChunkedRead(f.spec, k, stream_api=(k % 2 == 0)).run_to_end()
                 ctx.steps += len(cr.chunk_sizes) + 1
                 try:
                     check_read(ctx, f, cr, k, ref, "sweep")
-                    if k >= big:
-                        msg = iosim.raw_conservation(f["spec"], k, body)
-                        if raised(msg):
-                            if k >= 2 * big + 2:
-                                raise Violation("byte_conservation", "raises",
-                                                {"file": describe(f), "k": k, "error": repr(msg)})
-                        elif msg is not None:
-                            msg.update({"file": describe(f), "k": k})
-                            raise Violation("byte_conservation", "bytes", msg)
+                    check_conservation(f, k)
                 except Violation as v:
-                    v.rewrite = {"sched": _weighted_first_value(SCHEDS, "fixed"), "k": k - 1}
+                    v.rewrite = {"sched": _weighted_first_value(SCHEDS, "fixed"), "k": k - 1,
+                                 "stream_api": 1 if k % 2 == 0 else 0}
                     raise
         else:
+            k_eff = sc["k"]
             if sched == "fixed":
-                ks, k_eff, use_default, stream_api = k_drawn, k_drawn, False, tape.boolean("stream_api")
+                ks, use_default, stream_api = sc["k"], False, sc["stream_api"]
             elif sched == "varying":
-                ks, k_eff, use_default, stream_api = ks_var, min(ks_var), False, False
+                ks, use_default, stream_api = sc["ks_varying"], False, False
+                k_eff = min(ks)
             elif sched == "default_iter":
-                ks, k_eff, use_default, stream_api = k_drawn, k_drawn, True, False
+                ks, use_default, stream_api = sc["k"], True, False
             else:
-                ks, k_eff, use_default, stream_api = k_drawn, k_drawn, True, True
-            fault = None
-            if eio:
-                nth = 1 + tape.draw(6, "eio.nth")
-                fs.plant_eio(f["spec"].path, "read", nth)
-                fault = "eio"
+                ks, use_default, stream_api = sc["k"], True, True
+            if sc["eio_nth"]:
+                fs.plant_eio(f.spec.path, "read", sc["eio_nth"])
             with core.chunk_knob(k_eff if use_default else None):
-                actors = [iosim.ChunkedRead(f["spec"], ks, use_default=use_default, stream_api=stream_api)]
-                refs = [ref]
-                files = [f]
+                actors = [iosim.ChunkedRead(f.spec, ks, use_default=use_default, stream_api=stream_api)]
+                refs, files = [ref], [f]
                 if g is not None:
-                    kb = 1 + tape.draw(len(g["data"]) + 2, "b.k")
-                    refb = iosim.read_whole(g["spec"])
+                    refb = iosim.read_whole(g.spec)
                     if not raised(refb):
-                        actors.append(iosim.ChunkedRead(g["spec"], kb))
+                        actors.append(iosim.ChunkedRead(g.spec, sc["k_b"]))
                         refs.append(refb)
                         files.append(g)
                 live = list(range(len(actors)))
                 order = []
-                while live and ctx.steps < 2000:
-                    a = live[tape.draw(len(live), "sched.actor")] if len(live) > 1 else live[0]
+                inter = sc.get("interleaving") or []
+                while live and ctx.steps < 3000:
+                    if len(live) > 1:
+                        pick = inter[len(order)] if len(order) < len(inter) else 0
+                        a = live[pick % len(live)]
+                    else:
+                        a = live[0]
                     order.append(a)
                     ctx.steps += 1
                     if not actors[a].step():
                         live.remove(a)
                 if len(actors) > 1:
                     ctx.probe("interleaved_readers")
-            ctx.trace["interleaving"] = order[:60]
+            ctx.trace["order"] = order[:80]
             for fname, n in fs.fault_fired.items():
                 ctx.fault(fname, n)
             fired = bool(fs.fault_fired)
             fs.faults.clear()   # a planted fault that did not fire must not leak into the follow-up reads
             check_read(ctx, f, actors[0], k_eff, refs[0], sched, fault="eio" if fired else None)
             if len(actors) > 1:
-                kb_eff = actors[1].ks
-                check_read(ctx, files[1], actors[1], kb_eff, refs[1], "fixed")
-            if not fired and sched in ("fixed",) and k_eff >= big:
-                msg = iosim.raw_conservation(f["spec"], k_eff, body)
-                if raised(msg):
-                    if k_eff >= 2 * big + 2:
-                        raise Violation("byte_conservation", "raises", {"file": describe(f), "k": k_eff, "error": repr(msg)})
-                elif msg is not None:
-                    msg.update({"file": describe(f), "k": k_eff})
-                    raise Violation("byte_conservation", "bytes", msg)
+                check_read(ctx, files[1], actors[1], sc["k_b"], refs[1], "fixed")
+            if not fired and sched == "fixed":
+                check_conservation(f, k_eff)
     ctx.io_events += fs.seq
-    ctx.note("C01", f["fmt"].name, sched, size, fs.seq, core.digest(fs.log))
+    ctx.note("C01", f.fmt.name, sched, f.size, fs.seq, core.digest(fs.log))
